@@ -161,6 +161,7 @@ def run_deductive(prop, tier, seed, report):
     report["samples"] = samples
     report["_engine"] = eng
     report["_failed"] = failed
+    report["_discharged_names"] = sorted(n for n, lst in by_name.items() if all((not ob.expect_fail) and r["verdict"] == "unsat" for ob, r in lst))
     report["_funcs"] = funcs
     report["_smoke_bad"] = smoke_bad
     report["_ledger"] = ledger
@@ -369,10 +370,10 @@ def main(argv=None):
         json.dump(ev, fh, indent=1, default=str)
 
     if a.update_ledger and not violations and not broken:
-        eng = report["_engine"]
-        for ob in eng.obligations:
-            if not ob.expect_fail and ob.name not in failed:
-                ledger.setdefault("obligations", {})[ob.name] = funcs.get(ob.func, {}).get("src_hash")
+        # only what this run actually discharged enters the ledger
+        for name in report.get("_discharged_names", []):
+            if name not in failed:
+                ledger.setdefault("obligations", {})[name] = True
         for k, rep in funcs.items():
             ledger.setdefault("functions", {})[k] = rep["status"]
         with open(os.path.join(HERE, "ledger.json"), "w") as fh:
